@@ -71,6 +71,16 @@ struct EtlLib {
     {
         etl::swap(a, b);
     }
+    template <typename T>
+    static auto make_optional(T&& v)
+    {
+        return etl::make_optional(std::forward<T>(v));
+    }
+    template <typename T, typename... A>
+    static auto make_optional_t(A&&... a)
+    {
+        return etl::make_optional<T>(std::forward<A>(a)...);
+    }
 };
 
 struct StdLib {
@@ -118,6 +128,16 @@ struct StdLib {
     static void swap(T& a, T& b)
     {
         std::swap(a, b);
+    }
+    template <typename T>
+    static auto make_optional(T&& v)
+    {
+        return std::make_optional(std::forward<T>(v));
+    }
+    template <typename T, typename... A>
+    static auto make_optional_t(A&&... a)
+    {
+        return std::make_optional<T>(std::forward<A>(a)...);
     }
 };
 
@@ -603,6 +623,13 @@ struct OptRunner {
                 case 'h': // assign the optional its own contained value
                     if (x.has_value()) { x = *x; }
                     break;
+                case 'v': // assign the optional a value that lives INSIDE its contained object (operator=(U&&), U = int&)
+                    if constexpr (std::is_same_v<T, Tracked>) {
+                        if (x.has_value()) { x = x->v; }
+                    } else {
+                        done = false;
+                    }
+                    break;
                 case 'x': x = std::as_const(c); break;
                 case 'y': x = std::move(c); break;
                 case 'X': {
@@ -620,6 +647,23 @@ struct OptRunner {
                 case 'i': x = O(Lib::in_place, raw<T>(st.p)); break;
                 case 'j': x = O(dec<T>(st.p)); break;
                 case 'J': x = O(dec<U>(st.p)); break;
+                case 'p': { // make_optional(value): optional<decay_t<T>>
+                    auto made = Lib::make_optional(dec<T>(st.p));
+                    static_assert(std::is_same_v<decltype(made), O>);
+                    x = std::move(made);
+                    break;
+                }
+                case 'P': { // make_optional<T>(args...): in-place
+                    auto made = Lib::template make_optional_t<T>(raw<T>(st.p));
+                    static_assert(std::is_same_v<decltype(made), O>);
+                    x = std::move(made);
+                    break;
+                }
+                case 'q': { // make_optional from an lvalue (copies)
+                    T const tv = dec<T>(st.p);
+                    x          = Lib::make_optional(tv);
+                    break;
+                }
                 case 'd': x = O(); break;
                 case 'D': x = O(Lib::nullopt); break;
                 default: done = false; break;
@@ -958,7 +1002,7 @@ struct RefCell {
     void swap(RefCell& o) { std::swap(p, o.p); }
     // [optional.ref.ctor] optional(const optional<U>& rhs): if rhs.has_value(), binds to *rhs; otherwise disengaged
     template <typename S>
-    void from_optional(S const& rhs)
+    void from_optional(S& rhs) // S may be const
     {
         if (rhs.has_value()) { p = std::addressof(*rhs); } else { p = nullptr; }
     }
@@ -1108,17 +1152,14 @@ struct RefRunner {
                         done = false;
                     }
                     break;
-                case 'O': // the same constructor from a NON-const lvalue optional<T> (fix 375db84)
-                    if constexpr (Const) {
-                        if constexpr (Etl) {
-                            x = O(src);
-                        } else {
-                            O tmp;
-                            tmp.from_optional(src);
-                            x = tmp;
-                        }
+                case 'O': // from a NON-const lvalue optional<T>: the optional<U> const& constructor when R is const
+                          // (fix 375db84), the optional<U>& constructor otherwise (fix 4d7f899)
+                    if constexpr (Etl) {
+                        x = O(src);
                     } else {
-                        done = false;
+                        O tmp;
+                        tmp.from_optional(src);
+                        x = tmp;
                     }
                     break;
                 case 'X': // ... from a non-const lvalue optional<T&>
@@ -1143,12 +1184,8 @@ struct RefRunner {
                         done = false;
                     }
                     break;
-                case 'Q':
-                    if constexpr (Const) {
-                        if constexpr (Etl) { x = src; } else { x.from_optional(src); }
-                    } else {
-                        done = false;
-                    }
+                case 'Q': // R const: operator=(optional<U> const&); otherwise x = optional<R&>(src) (implicit) + copy assignment
+                    if constexpr (Etl) { x = src; } else { x.from_optional(src); }
                     break;
                 case 'y':
                     if constexpr (FromZ) {
